@@ -10,7 +10,7 @@
      keeps top X m R : from Inv X, m keeps Inv X, its result satisfies R, and its errors are cancellation,
                wrapped in 1 or 2 V-contexts, or (only when top = false) not yet wrapped.  *)
 From TSG Require Import Model.Strict Model.Lazy.
-From TSG Require Import Proofs.BaseFacts Proofs.MonadFacts Proofs.StrictMeta Proofs.ErrorCtx.
+From TSG Require Import Proofs.BaseFacts Proofs.MonadFacts Proofs.StrictMeta Proofs.Captures Proofs.ErrorCtx.
 
 (* ---------------------------------------------------------------- statements of a stanza, at any depth *)
 (* all statements nested in s (s itself excluded) *)
@@ -638,4 +638,260 @@ Proof.
   - right. destruct (lexec_file t fl cfg glob regexes find call fuel ms (linit g0) (polls0 budget)) as [[[a s1] p1]|e'|x|] eqn:El; try discriminate.
     inversion H; subst. eapply lexec_file_error_valid_lemma; eauto.
   - left. inversion H; subst. reflexivity.
+Qed.
+
+(* ---------------------------------------------------------------- strict mode: the cited statement *)
+(* In strict mode every statement of a nested block is run inside its own statement context and with_context
+   keeps the innermost one, so the location an error cites is that of the INNERMOST statement whose own
+   execution failed.  Formally: the cited statement s' is a statement of the stanza (any depth) and the cause is
+   the error returned by a run of s' itself (in this block: same match, stanza location and node in its environment)
+   that carries NO statement context — and whatever a nested block of s' raises is a cancellation or carries a
+   statement context (`strict_nested_error_not_plain`), so the failure is not one of a statement nested in s'. *)
+Section StrictLoc.
+  Context {rx : Type}.
+  Variables (t : tree) (fl : file) (cfg : config) (glob : globals) (regexes : list rx)
+            (find : rx -> str -> option (list (option (N * N))))
+            (call : ident -> graph -> list value -> res (value * graph)).
+  Hypothesis Hcall : call_errors_base call.
+  Variables (z : loc) (n : N) (m : qmatch).
+
+  Notation SM := (M sstate).
+  Notation exec_stmt' := (exec_stmt t fl cfg glob regexes find call).
+  Definition mk_ctx (l : loc) : stmt_ctx := {| sc_stmt := l; sc_stanza := z; sc_node := n |}.
+
+  Definition errs {A} (RR : exec_error -> Prop) (c : SM A) : Prop := forall s p e, c s p = Err e -> RR e.
+  Definition plain (e : exec_error) : Prop := cancelled e \/ unwrapped e.
+
+  (* statement s' was run in this block and its run returned e1, an error without statement context *)
+  Definition fails_directly (s' : stmt) (e1 : exec_error) : Prop :=
+    exists fuel le s0 p0, exec_stmt' fuel le s' s0 p0 = Err e1 /\ unwrapped e1 /\
+                          le_ctx le = mk_ctx (stmt_loc s') /\ le_match le = m.
+  (* e cites a statement of L that failed directly; the cause is that failure (inside "matching .. arm" for scan arms) *)
+  Definition located (L : list stmt) (e : exec_error) : Prop :=
+    exists s' e0 e1, In s' L /\ e = EInContext (CtxStmts [mk_ctx (stmt_loc s')]) e0 /\
+                     (e0 = e1 \/ e0 = EInContext CtxOther e1) /\ fails_directly s' e1.
+  Definition stmt_err (s : stmt) (e : exec_error) : Prop := cancelled e \/ unwrapped e \/ located (stmt_subs s) e.
+
+  Lemma e_ret A RR (a : A) : errs RR (ret a). Proof. intros s p e H. discriminate. Qed.
+  Lemma e_bind A B RR (c : SM A) (f : A -> SM B) : errs RR c -> (forall a, errs RR (f a)) -> errs RR (bind c f).
+  Proof. intros Hc Hf s p e H. apply bind_err in H as [H|(a & s1 & p1 & _ & H)]; [eapply Hc|eapply Hf]; eauto. Qed.
+  Lemma e_weaken A (RR RR' : exec_error -> Prop) (c : SM A) : (forall e, RR e -> RR' e) -> errs RR c -> errs RR' c.
+  Proof. intros HR H s p e He. eapply HR, H, He. Qed.
+  Lemma e_iterM A RR (f : A -> SM unit) l : (forall x, In x l -> errs RR (f x)) -> errs RR (iterM f l).
+  Proof.
+    induction l as [|x l IH]; intros H; cbn [iterM]; [apply e_ret|]. apply e_bind; [apply H; left; reflexivity|intros _].
+    apply IH. intros y Hy. apply H. right. exact Hy.
+  Qed.
+  Lemma e_mapM A B RR (f : A -> SM B) l : (forall x, errs RR (f x)) -> errs RR (mapM f l).
+  Proof.
+    intros H. induction l as [|x l IH]; cbn [mapM]; [apply e_ret|]. apply e_bind; [apply H|intros y]. apply e_bind; [exact IH|intros ys; apply e_ret].
+  Qed.
+
+  (* the parts of the interpreter without nested blocks: instances of the generic meta-theorem *)
+  Definition PP : forall A : Type, SM A -> Prop := fun A c => errs plain c.
+  Ltac destruct_matches_in H :=
+    repeat match type of H with context [match ?x with _ => _ end] => destruct x eqn:? end.
+  Ltac prim := intros s0 p0 e0 H;
+    cbv [add_node add_attr add_edge call_function set_graph set_locals set_scoped set_params bind get_state modify ret fail panic out_of_fuel] in H;
+    destruct_matches_in H; try discriminate; inversion H; subst; try (right; apply U_base; exact I).
+  Lemma p_ret : forall A (a : A), PP A (ret a). Proof. intros A a. apply e_ret. Qed.
+  Lemma p_bind : forall A B (c : SM A) (f : A -> SM B), PP A c -> (forall a, PP B (f a)) -> PP B (bind c f).
+  Proof. intros A B c f. apply e_bind. Qed.
+  Lemma p_fail : forall A e, base_error e -> PP A (fail e). Proof. intros A e Hb s p e' H. inversion H; subst. right. apply U_base, Hb. Qed.
+  Lemma p_panic : forall A x, PP A (panic x). Proof. intros A x s p e H. discriminate. Qed.
+  Lemma p_oof : forall A, PP A out_of_fuel. Proof. intros A s p e H. discriminate. Qed.
+  Lemma p_get : PP sstate get_state. Proof. intros s p e H. discriminate. Qed.
+  Lemma p_set_locals : forall l, PP unit (set_locals l). Proof. intros l. prim. Qed.
+  Lemma p_set_scoped : forall l, PP unit (set_scoped l). Proof. intros l. prim. Qed.
+  Lemma p_set_params : forall l, PP unit (set_params l). Proof. intros l. prim. Qed.
+  Lemma p_poll : forall l, PP unit (poll l). Proof. intros l s p e H. apply poll_err in H as (-> & _). left. exists l. reflexivity. Qed.
+  Lemma p_add_node : PP N add_node. Proof. prim. Qed.
+  Lemma p_add_attr : forall tgt k v, PP unit (add_attr tgt k v). Proof. intros tgt k v. prim. Qed.
+  Lemma p_add_edge : forall a b, PP bool (add_edge a b). Proof. intros a b. prim. Qed.
+  Lemma p_call : forall f args, PP value (call_function call f args).
+  Proof. intros f args. prim. right. apply U_base. eapply Hcall; eauto. Qed.
+  Ltac pside := first [ exact p_ret | exact p_bind | exact p_fail | exact p_panic | exact p_oof | exact p_get | exact p_set_locals
+                      | exact p_set_scoped | exact p_set_params | exact p_poll | exact p_add_node | exact p_add_attr | exact p_add_edge | exact p_call ].
+
+  Lemma e_eval fuel le e : errs plain (eval t fl glob call fuel le e). Proof. apply (Phi_eval t fl glob call PP); pside. Qed.
+  Lemma e_var_add fuel le v x mu : errs plain (var_add t fl glob call fuel le v x mu). Proof. apply (Phi_var_add t fl glob call PP); pside. Qed.
+  Lemma e_var_set fuel le v x : errs plain (var_set t fl glob call fuel le v x). Proof. apply (Phi_var_set t fl glob call PP); pside. Qed.
+  Lemma e_test_cond fuel le c : errs plain (test_cond t fl glob call fuel le c). Proof. apply (Phi_test_cond t fl glob call PP); pside. Qed.
+  Lemma e_exec_attr fuel le tgt a : errs plain (exec_attr t fl glob call fuel le tgt a). Proof. apply (Phi_exec_attr t fl glob call PP); pside. Qed.
+  Lemma e_opt_attr tgt name v : errs plain (opt_attr tgt name v). Proof. apply (Phi_opt_attr PP); pside. Qed.
+  Lemma e_full_match_node le : errs plain (full_match_node le). Proof. apply (Phi_full_match_node PP); pside. Qed.
+  Lemma e_push_frame : errs plain push_frame. Proof. apply (Phi_push_frame PP); pside. Qed.
+  Lemma e_pop_frame : errs plain pop_frame. Proof. apply (Phi_pop_frame PP); pside. Qed.
+  Lemma e_clear_frame : errs plain clear_frame. Proof. apply (Phi_clear_frame PP); pside. Qed.
+  Lemma e_unscoped_add name v mu : errs plain (unscoped_add glob name v mu). Proof. apply (Phi_unscoped_add glob PP); pside. Qed.
+  Lemma e_lift A (r : res A) : base_res r -> errs plain (lift r). Proof. apply (Phi_lift PP); pside. Qed.
+
+  Ltac pl_step :=
+    first [ apply e_ret | apply e_eval | apply e_var_add | apply e_var_set | apply e_test_cond | apply e_exec_attr | apply e_opt_attr
+          | apply e_full_match_node | apply e_push_frame | apply e_pop_frame | apply e_clear_frame | apply e_unscoped_add
+          | exact p_add_node | apply p_add_attr | apply p_add_edge | apply p_poll
+          | apply e_lift; first [apply base_as_bool | apply base_as_str | apply base_as_list | apply base_as_gnode]
+          | apply e_bind; [|intros ?]
+          | apply e_iterM; intros ? _
+          | match goal with |- errs _ (match ?x with _ => _ end) => destruct x end
+          | match goal with |- errs _ (if ?x then _ else _) => destruct x end ].
+  Ltac pl := repeat pl_step.
+
+  Section Loops.
+    Variable RR : exec_error -> Prop.
+    Hypothesis Hplain : forall e, plain e -> RR e.
+    Lemma e_plain A (c : SM A) : errs plain c -> errs RR c. Proof. apply e_weaken, Hplain. Qed.
+    Lemma e_scan_loop run_arm arms rs subject :
+      (forall caps r body l, In (r, body, l) arms -> errs RR (run_arm caps body)) ->
+      forall sfuel i, errs RR (scan_loop find run_arm arms rs subject sfuel i).
+    Proof.
+      intros Hrun. induction sfuel as [|sfuel IHs]; intros i; cbn [scan_loop]; [intros s p e H; discriminate|].
+      destruct (N.ltb i (N.of_nat (length subject))); [|apply e_ret].
+      apply e_bind; [apply e_plain, p_poll|intros _]. cbv zeta.
+      destruct (arm_select find rs (skipn (N.to_nat i) subject)) as [|k|k caps]; [apply e_ret|apply e_plain, p_fail; exact I|].
+      destruct (nth_error arms (N.to_nat k)) as [[[r body] l']|] eqn:En; [|intros s p e H; discriminate].
+      apply e_bind; [apply e_plain, e_push_frame|intros _].
+      apply e_bind; [eapply Hrun; eapply nth_error_In; eauto|intros _].
+      apply e_bind; [apply e_plain, e_pop_frame|intros _]. apply IHs.
+    Qed.
+    Lemma e_if_loop test run_body :
+      (forall c, errs RR (test c)) ->
+      forall arms, (forall conds body l, In (conds, body, l) arms -> errs RR (run_body body)) ->
+      errs RR (if_loop test run_body arms).
+    Proof.
+      intros Ht. induction arms as [|[[conds body] l'] arms IHa]; intros Hr; cbn [if_loop]; [apply e_ret|].
+      apply e_bind; [apply e_mapM; intros c; apply Ht|intros bs].
+      destruct (forallb (fun b => b) bs); [|apply IHa; intros; eapply Hr; right; eauto].
+      apply e_bind; [apply e_plain, e_push_frame|intros _].
+      apply e_bind; [eapply Hr; left; reflexivity|intros _]. apply e_plain, e_pop_frame.
+    Qed.
+  End Loops.
+
+  Lemma unwrapped_add_other_eq e : unwrapped e -> add_context CtxOther e = EInContext CtxOther e.
+  Proof. intros H. destruct H as [e Hb|e H]; [|reflexivity]. destruct e; cbn in *; try contradiction; reflexivity. Qed.
+
+  (* one statement of a block, run inside its own statement context: the error of the wrapped run, given what the
+     statement's own run can return *)
+  Lemma nested_stmt_error (L : list stmt) (wrap : SM unit -> SM unit) fuel le st s0 p0 e :
+    (forall (c : SM unit) s p e', wrap c s p = Err e' -> exists e1, c s p = Err e1 /\ (e' = e1 \/ e' = add_context CtxOther e1)) ->
+    (forall y, In y (st :: stmt_subs st) -> In y L) ->
+    le_ctx le = mk_ctx (stmt_loc st) -> le_match le = m ->
+    errs (stmt_err st) (exec_stmt' fuel le st) ->
+    ctx_wrap (CtxStmts [mk_ctx (stmt_loc st)]) (wrap (exec_stmt' fuel le st)) s0 p0 = Err e ->
+    cancelled e \/ located L e.
+  Proof.
+    intros Hw HL Hctx Hm IH H. apply ctx_wrap_err in H as (ew & H & ->). apply Hw in H as (e1 & H & Hew).
+    destruct (IH _ _ _ H) as [[l ->]|[Hu|(s' & e0 & e2 & Hin & -> & He0 & Hf)]].
+    - left. exists l. destruct Hew as [->| ->]; reflexivity.
+    - right. exists st, ew, e1. split; [apply HL; left; reflexivity|]. split.
+      + destruct Hew as [->| ->]; [apply unwrapped_add_stmts, Hu|]. rewrite unwrapped_add_other_eq by exact Hu. reflexivity.
+      + split; [destruct Hew as [->| ->]; [left; reflexivity|right; apply unwrapped_add_other_eq, Hu]|].
+        exists fuel, le, s0, p0. auto.
+    - right. exists s', e0, e2. split; [apply HL; right; exact Hin|]. split; [destruct Hew as [->| ->]; reflexivity|]. auto.
+  Qed.
+
+  Lemma wrap_id (c : SM unit) s p e' : (fun x : SM unit => x) c s p = Err e' -> exists e1, c s p = Err e1 /\ (e' = e1 \/ e' = add_context CtxOther e1).
+  Proof. intros H. exists e'. auto. Qed.
+  Lemma wrap_other (c : SM unit) s p e' : ctx_wrap CtxOther c s p = Err e' -> exists e1, c s p = Err e1 /\ (e' = e1 \/ e' = add_context CtxOther e1).
+  Proof. intros H. apply ctx_wrap_err in H as (e1 & H & ->). exists e1. auto. Qed.
+
+  Lemma stmt_err_plain s e : plain e -> stmt_err s e.
+  Proof. intros [H|H]; [left; exact H|right; left; exact H]. Qed.
+
+  Theorem strict_stmt_error_loc : forall fuel le s, le_ctx le = mk_ctx (stmt_loc s) -> le_match le = m ->
+    errs (stmt_err s) (exec_stmt' fuel le s).
+  Proof.
+    induction fuel as [|fuel IH]; intros le s Hctx Hm; [intros s0 p0 e H; discriminate|].
+    assert (Hblock : forall le' (wrap : SM unit -> SM unit) body,
+               (forall (c : SM unit) s p e', wrap c s p = Err e' -> exists e1, c s p = Err e1 /\ (e' = e1 \/ e' = add_context CtxOther e1)) ->
+               le_ctx le' = le_ctx le -> le_match le' = m ->
+               (forall st y, In st body -> In y (st :: stmt_subs st) -> In y (stmt_subs s)) ->
+               errs (stmt_err s) (iterM (fun st => let c := ctx_update (le_ctx le') st in
+                                     ctx_wrap (CtxStmts [c]) (wrap (exec_stmt' fuel (le_with_ctx le' c) st))) body)).
+    { intros le' wrap body Hw El Em Hsub. apply e_iterM. intros st Hin s0 p0 e H. cbv zeta in H.
+      assert (Ec : ctx_update (le_ctx le') st = mk_ctx (stmt_loc st)) by (rewrite El, Hctx; reflexivity).
+      rewrite Ec in H.
+      destruct (nested_stmt_error (stmt_subs s) wrap fuel (le_with_ctx le' (mk_ctx (stmt_loc st))) st s0 p0 e Hw) as [Hc|Hl]; auto.
+      - intros y Hy. eapply Hsub; eauto.
+      - left. exact Hc.
+      - right. right. exact Hl. }
+    destruct s; cbn [exec_stmt]; (apply e_bind; [apply e_plain; [apply stmt_err_plain|apply p_poll]|intros _]).
+    1-7, 9: apply e_plain; [apply stmt_err_plain|]; pl.
+    - (* scan *)
+      apply e_bind; [apply e_plain; [apply stmt_err_plain|apply e_eval]|intros sv].
+      apply e_bind; [apply e_plain; [apply stmt_err_plain|apply e_lift, base_as_str]|intros subject].
+      destruct (arm_table regexes arms) as [rs|]; [|intros s0 p0 e H; discriminate].
+      apply e_scan_loop; [apply stmt_err_plain|]. intros caps r body l' Hin.
+      apply (Hblock (le_with_caps le caps) (ctx_wrap CtxOther) body); [apply wrap_other|reflexivity|exact Hm|].
+      intros st y Hst Hy. eapply subs_scan; eauto.
+    - (* if *)
+      apply e_if_loop; [apply stmt_err_plain|intros c; apply e_plain; [apply stmt_err_plain|apply e_test_cond]|].
+      intros conds body l' Hin. apply (Hblock le (fun x => x) body); [apply wrap_id|reflexivity|exact Hm|].
+      intros st y Hst Hy. eapply subs_if; eauto.
+    - (* for *)
+      apply e_bind; [apply e_plain; [apply stmt_err_plain|apply e_eval]|intros lv].
+      apply e_bind; [apply e_plain; [apply stmt_err_plain|apply e_lift, base_as_list]|intros vals].
+      apply e_bind; [apply e_plain; [apply stmt_err_plain|apply e_push_frame]|intros _].
+      apply e_bind; [|intros _; apply e_plain; [apply stmt_err_plain|apply e_pop_frame]].
+      apply e_iterM. intros v _. apply e_bind; [apply e_plain; [apply stmt_err_plain|apply e_clear_frame]|intros _].
+      apply e_bind; [apply e_plain; [apply stmt_err_plain|apply e_unscoped_add]|intros _].
+      apply (Hblock le (fun x => x) body); [apply wrap_id|reflexivity|exact Hm|].
+      intros st y Hst Hy. eapply subs_for; eauto.
+  Qed.
+
+  (* a nested block (the statements of an `if`/`for` body or of a scan arm, each in its own context): its error is a
+     cancellation or cites one of its statements (any depth) that failed directly *)
+  Theorem strict_block_error_lemma fuel le' (wrap : SM unit -> SM unit) body :
+    (forall (c : SM unit) s p e', wrap c s p = Err e' -> exists e1, c s p = Err e1 /\ (e' = e1 \/ e' = add_context CtxOther e1)) ->
+    sc_stanza (le_ctx le') = z -> sc_node (le_ctx le') = n -> le_match le' = m ->
+    errs (fun e => cancelled e \/ located (stmts_all body) e)
+         (iterM (fun st => let c := ctx_update (le_ctx le') st in
+                           ctx_wrap (CtxStmts [c]) (wrap (exec_stmt' fuel (le_with_ctx le' c) st))) body).
+  Proof.
+    intros Hw Ez En Em. apply e_iterM. intros st Hin s0 p0 e H. cbv zeta in H.
+    assert (Ec : ctx_update (le_ctx le') st = mk_ctx (stmt_loc st)) by (unfold ctx_update, mk_ctx; rewrite Ez, En; reflexivity).
+    rewrite Ec in H.
+    apply (nested_stmt_error (stmts_all body) wrap fuel (le_with_ctx le' (mk_ctx (stmt_loc st))) st s0 p0 e Hw); auto.
+    - intros y Hy. eapply stmts_all_in; eauto.
+    - apply strict_stmt_error_loc; auto.
+  Qed.
+  Lemma located_not_unwrapped L e : cancelled e \/ located L e -> ~ unwrapped e.
+  Proof.
+    intros [[l ->]|(s' & e0 & e1 & _ & -> & _)] Hu; inversion Hu as [e Hb|e Hu']; subst; cbn in *; try contradiction.
+  Qed.
+
+  (* one (stanza, match) block *)
+  Theorem strict_stanza_error_loc_lemma fuel st s p e rest :
+    z = st_start st -> nodes_for_capture m (st_full_stanza_idx st) = n :: rest ->
+    exec_stanza t fl cfg glob regexes find call fuel st m s p = Err e ->
+    cancelled e \/ located (stmts_all (st_stmts st)) e.
+  Proof.
+    intros Ez Hn H. unfold exec_stanza in H. apply bind_err in H as [H|(u & s1 & p1 & _ & H)].
+    - unfold clear_frame in H. apply bind_err in H as [H|(a & s2 & p2 & _ & H)]; discriminate.
+    - apply iterM_err in H as (x & s' & p' & Hin & H). cbv zeta in H. rewrite Hn in H. rewrite <- Ez in H.
+      eapply (nested_stmt_error (stmts_all (st_stmts st)) (fun c => c)) in H; [exact H|apply wrap_id| | | |].
+      + intros y Hy. eapply stmts_all_in; eauto.
+      + reflexivity.
+      + reflexivity.
+      + apply strict_stmt_error_loc; reflexivity.
+  Qed.
+End StrictLoc.
+
+Theorem strict_file_error_loc_lemma {rx : Type} t fl cfg glob (regexes : list rx) find call fuel sts ms s p e :
+  call_errors_base call ->
+  exec_file t fl cfg glob regexes find call fuel sts ms s p = Err e ->
+  cancelled e \/
+  exists st m, In (st, m) (blocks sts ms) /\
+    match nodes_for_capture m (st_full_stanza_idx st) with
+    | n :: _ => located t fl cfg glob regexes find call (st_start st) n m (stmts_all (st_stmts st)) e
+    | [] => False
+    end.
+Proof.
+  intros Hcall H. rewrite strict_blocks_once in H. apply iterM_err in H as ([st m] & s' & p' & Hin & H). cbn [fst snd] in H.
+  destruct (nodes_for_capture m (st_full_stanza_idx st)) as [|n rest] eqn:En.
+  - exfalso. unfold exec_stanza in H. apply bind_err in H as [H|(u & s1 & p1 & _ & H)].
+    + unfold clear_frame in H. apply bind_err in H as [H|(a & s2 & p2 & _ & H)]; discriminate.
+    + apply iterM_err in H as (x & s'' & p'' & _ & H). cbv zeta in H. rewrite En in H. discriminate.
+  - destruct (strict_stanza_error_loc_lemma t fl cfg glob regexes find call Hcall (st_start st) n m fuel st s' p' e rest eq_refl En H) as [Hc|Hc]; [left; exact Hc|].
+    right. exists st, m. split; [exact Hin|]. rewrite En. exact Hc.
 Qed.
